@@ -17,6 +17,7 @@ import (
 //	c01  accepted programs must raise no safety-obligation event (interpreter) and no sanitizer report (C)
 //	c02  every recorded fact / assert / loop condition must evaluate true when reached
 //	c04  the production C's trace must equal the interpreter's trace (programs with any C01/C02 event are excluded)
+//	c05  the production C's result for one program and one input must not depend on how source and destination are split
 
 func init() { Table["PROGS"] = Progs }
 
@@ -84,6 +85,9 @@ func Progs(rc *vk.Rec) {
 		cEvery = 1
 		opts.SafeOnly = true
 		opts.MaxScens = 3
+	case "c05":
+		progsC05(rc, env)
+		return
 	default:
 		rc.Inconclusive("PROGS: unknown mode " + mode)
 		return
@@ -292,4 +296,132 @@ func headRecs(t []wprog.Rec, n int) []wprog.Rec {
 		return t[:n]
 	}
 	return t
+}
+
+// c05Families are the coroutine families whose programs touch their streams
+// only through `?` methods (wprog.SplitIndependent has the variant list).
+var c05Families = []string{"K-live", "K-live", "K-live", "K-read-seq", "K-read-loop", "K-write-loop", "K-nested-coro", "K-peek-skip"}
+
+// progsC05 is the generated-program leg of C05: one accepted coroutine program,
+// one input, many partitions of the source bytes and of the destination
+// capacity (every single split point, byte by byte, random multi-splits); the
+// production C (ASan+UBSan and -O2 builds) must produce the same result as for
+// the one-shot delivery: completion, final status, bytes written, getters and
+// (when the final status is ok) consumed count.
+func progsC05(rc *vk.Rec, env *wprog.Env) {
+	const phase = "progs-c05"
+	nTotal := rc.N(160, 6000)
+	maxVar := 48
+	for idx := int64(0); idx < int64(nTotal); idx++ {
+		if rc.SkipCase(phase, idx) {
+			continue
+		}
+		rc.Mark(phase, idx)
+		r := rc.RNG(phase, idx)
+		c := wprog.GenCase(r, wprog.GenOptions{Family: c05Families[r.Intn(len(c05Families))], Variant: -1, MaxScens: 1, MaxCalls: 1 << 20})
+		if c == nil || !wprog.SplitIndependent(c.ID) {
+			continue
+		}
+		p, rejected, err := wprog.Compile(c)
+		if err != nil {
+			rc.Count("compile_errors", 1)
+			continue
+		}
+		if rejected != "" {
+			rc.Count("rejected", 1)
+			continue
+		}
+		vars := wprog.Resplit(c, r, maxVar)
+		if len(vars) < 2 {
+			rc.Count("not_a_feed_block", 1)
+			continue
+		}
+		// the reference semantics of the one-shot run decide whether the case is
+		// in scope: a safety / fact event means the program has no defined meaning
+		out := p.Interpret(vars[0])
+		if out.Unsupported != "" || len(out.Events) > 0 {
+			rc.Count("excluded_by_interpreter", 1)
+			continue
+		}
+		rc.Eval(1)
+		for _, sanitize := range []bool{true, false} {
+			env.Sanitize = sanitize
+			build := "O2"
+			if sanitize {
+				build = "asan"
+			}
+			traces, events, err := wprog.RunC(env, vars)
+			if err != nil {
+				rc.Inconclusive("RunC: " + err.Error())
+				break
+			}
+			if len(traces) == 0 || traces[0] == nil {
+				rc.Count("c_one_shot_failed", 1)
+				break
+			}
+			ref, refDone := wprog.Final(traces[0])
+			// sanity of the harness: the one-shot C result must be the interpreter's
+			// (that comparison is C04's verdict; here a mismatch only excludes the case)
+			if it, itDone := wprog.Final(out.Trace); itDone != refDone || it.Ret != ref.Ret {
+				rc.Count("one_shot_c_differs_from_interpreter", 1)
+				break
+			}
+			susp := 0
+			for k := 1; k < len(vars); k++ {
+				if k >= len(traces) || traces[k] == nil {
+					rc.Count("c_variant_failed_"+build, 1)
+					continue
+				}
+				if k < len(events) {
+					for _, ev := range events[k] {
+						if strings.HasPrefix(ev.Kind, "sanitizer:") {
+							rc.ViolateCase("split-dependence:gen:"+c.ID+":sanitizer", fmt.Sprintf("[%s] %s C, chunked run %d: %s at %s (one-shot run is clean)", c.ID, build, k, ev.Kind, ev.Node), phase, idx,
+								map[string]interface{}{"source": c.Source, "calls": vars[k].Calls, "event": ev})
+						}
+					}
+				}
+				rc.Count("chunked_runs_"+build, 1)
+				got, done := wprog.Final(traces[k])
+				for _, x := range traces[k] {
+					if strings.HasPrefix(x.Ret, "$") {
+						susp++
+					}
+				}
+				diff := ""
+				switch {
+				case done != refDone:
+					diff = fmt.Sprintf("completed=%v (status %q) vs one-shot completed=%v (status %q)", done, got.Ret, refDone, ref.Ret)
+				case got.Ret != ref.Ret:
+					diff = fmt.Sprintf("status %q vs one-shot %q", got.Ret, ref.Ret)
+				case got.DstWI != ref.DstWI || got.DstHash != ref.DstHash:
+					diff = fmt.Sprintf("bytes written wi=%d hash=%x vs one-shot wi=%d hash=%x", got.DstWI, got.DstHash, ref.DstWI, ref.DstHash)
+				case fmt.Sprint(got.Getters) != fmt.Sprint(ref.Getters):
+					diff = fmt.Sprintf("getters %v vs one-shot %v", got.Getters, ref.Getters)
+				case done && ref.Ret == "" && got.SrcRI != ref.SrcRI:
+					diff = fmt.Sprintf("consumed %d vs one-shot %d", got.SrcRI, ref.SrcRI)
+				}
+				if diff != "" {
+					field := strings.SplitN(diff, " ", 2)[0]
+					rc.ViolateCase("split-dependence:gen:"+c.ID+":"+field, fmt.Sprintf("generated coroutine [%s], %s C: chunked delivery %d of the same input gives %s", c.ID, build, k, diff), phase, idx,
+						map[string]interface{}{"source": c.Source, "one_shot_calls": vars[0].Calls, "chunked_calls": vars[k].Calls, "one_shot_trace": traces[0], "chunked_trace": traces[k]})
+					break
+				}
+			}
+			rc.Count("gen_suspensions_resumed", int64(susp))
+			cls := "gen|" + c.ID
+			if susp > 0 {
+				cls += "|resumed"
+			}
+			if !refDone {
+				cls += "|ends-suspended"
+			} else if ref.Ret != "" {
+				cls += "|error"
+			}
+			rc.Class(cls)
+		}
+		if rc.NSamples() < 2 {
+			rc.Sample(map[string]interface{}{"id": c.ID, "source": c.Source, "variants": len(vars)})
+		}
+	}
+	os.RemoveAll(env.Scratch)
 }
